@@ -422,7 +422,7 @@ func (e *Engine) verifyFunction(key string, ct *Contract) (res *FuncResult) {
 		res.Errs = append(res.Errs, fmt.Sprintf("contract names %s but no such function exists in /repo (contract no longer applies)", key))
 		return
 	}
-	vc := &VC{eng: e, fn: fn, key: key, ct: ct, declared: map[string]bool{}, keys: map[string]*keyInfo{}, occ: map[string]int{}, strlits: map[string]Term{}, curTags: ct.Tags, fpMode: ct.Mode == "fp"}
+	vc := &VC{eng: e, fn: fn, key: key, ct: ct, declared: map[string]bool{}, keys: map[string]*keyInfo{}, occ: map[string]int{}, strlits: map[string]Term{}, curTags: ct.Tags, fpMode: ct.Mode == "fp", cutsHit: map[string]bool{}}
 	defer func() {
 		if r := recover(); r != nil {
 			if u, ok := r.(unsupported); ok {
@@ -540,6 +540,11 @@ func (e *Engine) verifyFunction(key string, ct *Contract) (res *FuncResult) {
 	if !anyRet && !ct.NoReturn && len(ct.Ensures) > 0 {
 		vc.errs = append(vc.errs, fmt.Sprintf("%s: no reachable return", key))
 	}
+	for _, c := range ct.Cuts {
+		if !vc.cutsHit[c] {
+			vc.errs = append(vc.errs, fmt.Sprintf("%s: cut anchor %q matched no instruction (contract no longer applies)", key, c))
+		}
+	}
 	res.Obls = vc.obls
 	res.Errs = append(res.Errs, vc.errs...)
 	res.Abstracted = vc.abstracted
@@ -572,6 +577,49 @@ func (o *Obligation) vacuityQuery() string {
 	}
 	sb.WriteString(fmt.Sprintf("(assert (not %s))\n(check-sat)\n", o.Goal))
 	return sb.String()
+}
+
+// cexQuery: counterexample mode. Quantified hypotheses are dropped (so the model is only a candidate) and the
+// values of every scalar constant of the encoding are requested.
+func (o *Obligation) cexQuery() (string, []string) {
+	var sb strings.Builder
+	pre := preludeAbs
+	if o.vc.fpMode {
+		pre = preludeFP
+	}
+	for _, l := range strings.Split(pre+smtPrelude, "\n") {
+		if strings.Contains(l, "(forall") {
+			continue
+		}
+		sb.WriteString(l)
+		sb.WriteByte('\n')
+	}
+	var names []string
+	for _, l := range o.vc.lines[:o.Prefix] {
+		if strings.Contains(l, "(forall") || strings.Contains(l, "(exists") {
+			continue
+		}
+		sb.WriteString(l)
+		sb.WriteByte('\n')
+		if strings.HasPrefix(l, "(declare-const ") {
+			f := strings.Fields(l)
+			if len(f) == 3 {
+				sort := strings.TrimSuffix(f[2], ")")
+				switch sort {
+				case "Int", "Bool", "LV", "Str", "F64":
+					names = append(names, f[1])
+				}
+			}
+		}
+	}
+	sb.WriteString(fmt.Sprintf("(assert (not %s))\n(check-sat)\n", o.Goal))
+	if len(names) > 600 {
+		names = names[:600]
+	}
+	if len(names) > 0 {
+		sb.WriteString("(get-value (" + strings.Join(names, " ") + "))\n")
+	}
+	return sb.String(), names
 }
 
 func (o *Obligation) query() string {
